@@ -62,6 +62,8 @@ def check_case(case):
             kw["suspect_threshold"] = case["suspect"]
         if case["fail"] is not None:
             kw["fail_threshold"] = case["fail"]
+        for pr, pz in case.get("pre", ()):
+            alpha.call(qartod.density_inversion_test, alpha.nd(pr), alpha.nd(pz), **kw)
         out = alpha.call(qartod.density_inversion_test, alpha.nd(rho), alpha.nd(z), **kw)
         acceptable = R.density_inversion(alpha.ref(rho), alpha.ref(z), case["suspect"], case["fail"])
         zmiss = any(v == alpha.NAN for v in z)
@@ -69,6 +71,9 @@ def check_case(case):
                               extra_sig=f"missing_depth={zmiss}", classify=lambda i: "point" if len(rho) > 1 else "only")
         return vs, alpha.is_nontrivial(acceptable), obs, 0
     p = case["p"]
+    for pp in case.get("pre", ()):
+        # earlier calls in the same process on other profiles: nothing of them may leak into the judged call
+        alpha.call(argo.pressure_increasing_test, alpha.nd(pp))
     inp = alpha.nd(p) if case.get("carrier", "nd") == "nd" else list(p)
     out = alpha.call(argo.pressure_increasing_test, inp)
     acceptable = R.pressure_increasing([float(v) for v in p])
@@ -99,6 +104,20 @@ def run_task(task, acc):
                     yield dict(fn="density", rho=list(rho), z=z, suspect=s, fail=f)
             yield dict(fn="pressure", p=[float(v) + 0.5 * i for i, v in enumerate(alpha.xl((0.0, 1.0, 2.0, 3.0)))])
             yield dict(fn="pressure", p=[float(v) - 0.5 * i for i, v in enumerate(alpha.xl((0.0, 1.0, 2.0, 3.0)))])
+            # a profile with stalls / reversals (and a density profile with inversions) first, then a clean longer one
+            for ln in (30, 600, 1500):
+                dirty = [float(i) for i in range(ln)]
+                for j in (ln // 3, ln // 2, ln - 2):
+                    dirty[j] = dirty[j - 1] - (j % 2)
+                clean = [float(i) * 0.5 for i in range(ln + 37)]
+                yield dict(fn="pressure", p=clean, pre=[dirty])
+                yield dict(fn="pressure", p=clean[: ln - 5], pre=[dirty, clean])
+                rd = [float(v) for v in alpha.xl(RHO, ln, 3)]
+                zd = [10.0 + i for i in range(ln)]
+                rc = [1.0 + 0.001 * i for i in range(ln + 37)]
+                zc = [10.0 + i for i in range(ln + 37)]
+                yield dict(fn="density", rho=rc, z=zc, suspect=-0.5, fail=-1.0, pre=[[rd, zd]])
+                yield dict(fn="density", rho=rc[: ln - 5], z=zc[: ln - 5], suspect=0.0, fail=None, pre=[[rd, zd], [rc, zc]])
             rho = alpha.debruijn(RHO, 4)
             n = len(rho)
             down = [10.0 + i for i in range(n)]
